@@ -157,7 +157,7 @@ prop("C04",
      "behaviour against concurrent holders (schedules); that the raw try really never waits (lock_api contract).")
 
 prop("C05",
-     [st.rule_M1, st.rule_M2, st.rule_M5, ts.rule_M4, LEAK_ALL, sem.rule_E2, ts2.rule_R1, sig.rule_A7, A("rule_Q3"), A("rule_Q4")],
+     [st.rule_M1, st.rule_M2, st.rule_M5, ts.rule_M4, LEAK_ALL, sem.rule_E2, ts2.rule_R1, sig.rule_A7, A("rule_Q3"), A("rule_Q4"), pos.rule_P1],
      "M1 hold types release exactly once in their creation mode on their own lock field and are not Clone/Copy; M2 each HL op maps to "
      "one lock_api op of the same kind and mode; M4 every release (explicit, hold Drop, guard drop) hits a receiver the call holds "
      "in that mode; LK every lock a call acquires is released or owned by the returned guard at every exit; E2 mode purity of the "
@@ -180,11 +180,12 @@ prop("C14",
      thorough_rules=[W("C14", "nightly")])
 
 prop("C15",
-     [sig.rule_A1, sig.rule_A2, sig.rule_A3, sig.rule_A4, sig.rule_A6, sig.rule_A7, sig.rule_O1, sig.rule_O3, ts.rule_T1, sem.rule_N1, st.rule_N4, W("C15")],
+     [sig.rule_A1, sig.rule_A2, sig.rule_A3, sig.rule_A4, sig.rule_A6, sig.rule_A7, sig.rule_O1, sig.rule_O3, ts.rule_T1, sem.rule_N1, st.rule_N4, pos.rule_P1, W("C15")],
      "Auto-trait table of all manual Send/Sync impls against std's Mutex/RwLock bounds, higher-ranked closure data in every "
      "scoped signature, hold types borrow their lock, read holds have no mutable access, unsafe markers, no shared access into "
      "OwnedLockCollection, protected cells touched only under a hold (T1), constructors that skip the duplicate check require unsafe "
-     "or an OwnedLockable bound (N1) and OwnedLockable is never implemented for anything that borrows its locks (N4) - plus compile-fail witnesses with twins.",
+     "or an OwnedLockable bound (N1) and OwnedLockable is never implemented for anything that borrows its locks (N4), every container/"
+     "wrapper maps guard/data_mut/read_guard/data_ref to the same operation of its members (P1: no `&mut` view under a shared hold) - plus compile-fail witnesses with twins.",
      "soundness of unsafe blocks beyond T1/A5; programs outside the corpus.",
      thorough_rules=[W("C15", "nightly")])
 
@@ -241,9 +242,10 @@ prop("C12",
      "the fault-injection runs themselves; behaviour of third-party raw locks after a panic.")
 
 prop("C13",
-     [st.rule_X1, A("rule_X2"), ts2.rule_X3, ts2.rule_R4, cg.rule_E3, st.rule_M1, st.rule_M2, sem.rule_E2, A("rule_E5"), st.rule_E1],
+     [st.rule_X1, A("rule_X2"), ts2.rule_X3, ts2.rule_R4, cg.rule_E3, st.rule_M1, st.rule_M2, sem.rule_E2, A("rule_E5"), st.rule_E1, pos.rule_P1],
      "X1 raw_try_* of Mutex/RwLock returns the unmodified lock_api try result on the not-killed path; X2 collection try is a "
-     "conjunction in list order with rollback, in the requested mode only; R4/E5 a failed attempt holds nothing; E3 never waits; E1 the list a collection tries is exactly the leaves of all its members, whatever the nesting.",
+     "conjunction in list order with rollback, in the requested mode only; R4/E5 a failed attempt holds nothing; E3 never waits; E1 the list a collection tries is exactly the leaves of all its members, whatever the nesting; "
+     "P1 every container/wrapper hands out, for a shared acquisition, the members' *shared* guards (a read guard that releases exclusively is not undone by dropping it).",
      "the raw lock's own exactness (try succeeds iff free) and the enumeration over held patterns.")
 
 prop("C16",
